@@ -291,7 +291,7 @@ theorem isSecAt_getSubCore_single (h : SubHdr) (ns : List String) (fail : Bool) 
           cases isStr k (some (Val.str a)) <;> simp [hk, hsec]
         · simp [hk]
 
-/-! ## the subcommand variable of the environment (open finding C17-env-named-subcommand-resets-defaults) -/
+/-! ## the subcommand variable of the environment (finding C17-env-named-subcommand-resets-defaults, repaired by a5d1a53) -/
 
 theorem lookup_foldl_insert (k : String) : ∀ (pcfg s : Cfg), (keysOf pcfg).Nodup →
     lookup k (pcfg.foldl (fun s kv => insert kv.1 kv.2 s) s) = match lookup k pcfg with
@@ -356,7 +356,7 @@ theorem envSubPart_unnamed (E : Env) (penv : P → Cfg) (q : P) (c0 : Cfg)
   | none => rfl
   | some h => simp [hv h hs]
 
-/-! ## the `parent_parsers` stack (open finding C17-env-default-config-leak) -/
+/-! ## the `parent_parsers` stack (finding C17-env-default-config-leak, repaired by 00c879c) -/
 
 theorem pickLast_absent (k : String) : ∀ (files : List Cfg) (base : Option Val), (∀ t ∈ files, lookup k t = .none) →
     pickLast k files base = base
@@ -365,9 +365,10 @@ theorem pickLast_absent (k : String) : ∀ (files : List Cfg) (base : Option Val
     simp only [pickLast, List.foldl_cons, h t List.mem_cons_self]
     exact pickLast_absent k rest base (fun x hx => h x (List.mem_cons_of_mem _ hx))
 
+/-- since fix 00c879c only the LAST stack entry counts, whatever is further up -/
 theorem filesOf_snoc (ctx : Ctx) (key : String) (pd own : List Cfg) :
-    filesOf (ctx ++ [(key, pd)]) own = filesOf ctx [] ++ pd.map (narrow key) ++ own := by
-  simp [filesOf]
+    filesOf (ctx ++ [(key, pd)]) own = pd.map (narrow key) ++ own := by
+  simp [filesOf, lastEntry]
 
 /-! ## a configuration that holds exactly one section and no name (what `dump` writes for an exactly-one result) -/
 
